@@ -75,13 +75,14 @@ CLAIMED = {
    design="6/C09", engine="coq-tfun",
    technique="Coq proof (loop invariant over a numpy model) + exact correspondence + einsum oracle"),
  "C11": dict(
-   text="17 theorems over an abstract commutative *-ring with phase units (instantiated by the exact ring Cyc32 = "
+   text="20 theorems over an abstract commutative *-ring with phase units (instantiated by the exact ring Cyc32 = "
         "Q[x]/(x^16+1)): every exported gate's array equals the tket/textbook matrix (H S T X Y Z, Rx Ry Rz CU1 CRz CRx "
         "for every phase, CZ, SWAP, Controlled(g) incl. daggered targets, Ket/Bra, scalars); rotations, gates and "
         "well-typed circuits of gates are unitary; a circuit evaluates to the ordered product of its whiskered gates; "
-        "then = product, tensor = Kronecker; dagger evaluates to the conjugate transpose for every circuit; rewire "
-        "refusals and contiguous placements in general.  Partial: rewire on arbitrary (a, b) only for n <= 4 by exhaustive "
-        "computation.  Tie to /repo: reference table vs pytket's Op.get_unitary(), exact Cyc32 results vs Circuit.eval() "
+        "then = product, tensor = Kronecker; dagger evaluates to the conjugate transpose for every circuit; the "
+        "adjacent-swap network of Diagram.permutation evaluates to the index-permutation matrix for every permutation; "
+        "rewire of any well-typed two-qubit circuit onto any a != b < n, every n, evaluates to the circuit acting on "
+        "qubits a and b (and its refusals).  Tie to /repo: reference table vs pytket's Op.get_unitary(), exact Cyc32 results vs Circuit.eval() "
         "at 1e-9 on grid phases, unitarity / dagger / statevector / rewire oracles.",
    design="6/C11", engine="coq-quantum",
    technique="Coq proof (abstract *-ring, exact cyclotomic instance) + correspondence vs eval and pytket"),
@@ -117,17 +118,22 @@ CLAIMED = {
    design="6/C18", engine="coq-grammar",
    technique="Coq proof (induction on slash types, parser loop invariants) + extracted-model correspondence + oracles"),
  "C07": dict(
-   text="12 theorems about a Gallina model of rewriting.snake_removal (follow_wire, find_snake, unsnake with its "
+   text="22 theorems about a Gallina model of rewriting.snake_removal (follow_wire, find_snake, unsnake with its "
         "index bookkeeping, the outer loop, then monoidal normalize): every yielded step of every prefix of the trace "
         "and the normal form are well-typed with the input's domain and codomain; follow_wire returns the consumer of "
         "the wire and the passed boxes; find_snake returns None iff no cap leg runs straight into the opposite leg of a "
         "matching cup; whatever it selects satisfies a snake equation (types match), with or without obstructions; each "
-        "unsnake removes exactly two boxes so the outer loop terminates; the twisted snake is left in place.  PARTIAL: "
-        "totality (only NotImplementedError) is proved for obstruction-free snakes only and semantic soundness in every "
-        "rigid category is stated, not proved - the check covers both with exact integer tensor functors and exception "
-        "classes on every yielded step.  Tie to /repo: whole traces compared with the extracted model.",
+        "unsnake removes exactly two boxes so the outer loop terminates; the twisted snake is left in place; SEMANTIC "
+        "SOUNDNESS: in every strict monoidal category with cups and caps satisfying the two snake equations (typed "
+        "record, and the untyped rigid_laws formulation) one unsnake call, every prefix of the snake-removal trace and "
+        "the rigid normal form denote the same morphism as the input, for arbitrary obstructions (wire-following "
+        "invariant preserved by every interchange; cap and cup end adjacent at offsets +-1; the deletion is never "
+        "refused), with non-trivial instances (qubit tensors over Z[i], counting model).  PARTIAL: "
+        "totality (only NotImplementedError) is proved for obstruction-free snakes only - what is missing is that every "
+        "interchange requested by the loops is legal; the check covers it with exception classes and exact integer "
+        "tensor functors on every yielded step.  Tie to /repo: whole traces compared with the extracted model.",
    design="6/C07", engine="coq-snake",
-   technique="Coq proof (partial) + trace correspondence + exact tensor-semantics oracle"),
+   technique="Coq proof (typing, wire-following invariant, semantic soundness in every rigid category) + trace correspondence + exact tensor-semantics oracle"),
  "C04": dict(
    text="9 theorems about the Gallina model of monoidal.Functor/rigid.Functor application (finite object and box "
         "tables; Swap, Cup, Cap and daggered boxes mapped as the code does): images are well-typed from F(dom) to "
@@ -201,12 +207,12 @@ CLAIMED = {
    design="6/C02", engine="coq-core",
    technique="Coq proof (algebraic laws on the hand model) + extracted-model correspondence + == oracle"),
  "C08": dict(
-   text="13 theorems about a Gallina model of tensor.Tensor on top of a model of the numpy primitives it calls "
+   text="16 theorems about a Gallina model of tensor.Tensor on top of a model of the numpy primitives it calls "
         "(reshape, tensordot, moveaxis with numpy's insertion algorithm, identity, conjugate) over Gaussian "
         "integers: composition = matrix product, tensor = Kronecker product, dagger = conjugate transpose and "
         "involutive, identity matrices, swaps = block permutation matrices, interchange law, swap naturality, "
-        "cups/caps deltas and both snake equations for a single wire of any dimension, refusals; for all "
-        "dimension lists and arrays.  Partial: multi-wire snake equations (full statements kept as Definitions). "
+        "closed form of the entries of multi-wire cups and caps (nested pairing), both snake equations for every "
+        "list of dimensions (empty, repeated, unequal, 1s), refusals; for all dimension lists and arrays.  "
         "Tie to /repo: numpy-primitive suite against the installed numpy plus Tensor DSL programs against "
         "discopy.tensor.Tensor, exact integer comparison, independent numpy kron/matmul oracle.",
    design="6/C08", engine="coq-tensor",
